@@ -222,6 +222,26 @@ def phys_large(factor):
     sx.reach("phys-large")
 
 
+def phys_samples(carrier, factor):
+    """magnitudes the FP queries do not reach: concrete raw values and requests for this factor"""
+    car = CARRIERS[carrier](I64, lambda v: setattr(v, "factor", factor))
+    af = abs(factor)
+    tol = af * (0.5 + 2.0 ** -20)
+    tag = "C20/phys-samples/%s/%r" % (carrier, factor)
+    for raw in (0, 1, -1, 2, 3, 7, -12, 100, 999, 12345, -54321, 2 ** 20 + 1, 2 ** 31 - 1, -(2 ** 31)):
+        car.set_raw_bytes([sx.byte_of(raw, i) for i in range(8)])
+        back = car.var.phys
+        sx.prove(back == raw * factor, "phys is raw * factor (sample %d)" % raw, tag + "/read")
+        x = raw * factor + 0.25 * factor
+        car.var.phys = x
+        got = sx.le_int(car.raw_bytes(), True)
+        err = got * factor - x
+        sx.prove(-tol <= err <= tol, "raw is the nearest integer (sample %d)" % raw, tag + "/nearest")
+        rb = car.var.phys - x
+        sx.prove(-tol <= rb <= tol, "read-back within half a step (sample %d)" % raw, tag + "/readback")
+    sx.reach("phys-samples")
+
+
 def phys_passthrough():
     """non-integer types are not scaled"""
     car = SdoCarrier(S301.REAL32, lambda v: setattr(v, "factor", 10))
@@ -254,6 +274,9 @@ def jobs(tier):
         for carrier in (("sdo",) if tier == "quick" and R < 31 else ("sdo", "pdo")):
             out.append(dict(func="phys", params=dict(carrier=carrier, factor=f, kind=kind, R=R),
                             weight=1000 if R < 31 else 200, limits=dict(fast_ms=300)))
+    for f in (2.5e-7, 1e-9, -3e-8, 1e-6, 0.001, 0.1, 1000.0, 1e6, 123456.789):
+        for carrier in ("sdo", "pdo"):
+            out.append(dict(func="phys_samples", params=dict(carrier=carrier, factor=f)))
     out.append(dict(func="phys_passthrough", params={}))
     for f in (1, 2):
         out.append(dict(func="phys_large", params=dict(factor=f), limits=dict(fast_ms=300), weight=500))
@@ -281,7 +304,7 @@ META = dict(
                     "writing the sign bit of a signed type through .bits", "non-contiguous bit lists"],
     assumptions=["z3 FP theory for float64 arithmetic"],
     stubs=["struct", "bytes", "dict displays -> SymDict", "logging"],
-    required_reach=["bits", "desc", "desc-outside", "phys-int", "phys-float", "phys-real", "phys-large"],
+    required_reach=["bits", "desc", "desc-outside", "phys-int", "phys-float", "phys-real", "phys-large", "phys-samples"],
     limits=dict(quick=dict(query_timeout_ms=200000), thorough=dict(query_timeout_ms=900000)),
     validate_every=dict(quick=7, thorough=3),
 )
